@@ -360,6 +360,8 @@ class Exec:
             self.facts_seen = set()
             self.trace = []
             self.shared = {}
+            self.heap_fields = {}
+            self.boxes = {}
             self.path_token = object()
             self.path_id = "".join("T" if d else "F" for d in prefix)
             try:
@@ -1029,15 +1031,6 @@ class Exec:
                 self.assume(lz.tag == i)
                 choice = i
                 break
-            if self.pure:
-                r = self.check_sat([lz.tag != i])
-                if r == z3.unsat:
-                    choice = i
-                    break
-                r2 = self.check_sat([lz.tag == i])
-                if r2 == z3.unsat:
-                    continue
-                raise Unsupported(f"lazily typed value {lz.name} first read inside a specification clause")
             if self.decide(lz.tag == i):
                 choice = i
                 break
@@ -1147,7 +1140,50 @@ class Exec:
             return
         if isinstance(obj, FuncRef):
             return  # function attributes (decorator flags) are not modelled
+        if isinstance(obj, SAny) and attr in self.contract.obj_fields:
+            arr = self.heap_field_array(attr)
+            self.heap_fields[attr] = z3.Store(arr, obj.t, self.to_field_term(val, self.contract.obj_fields[attr]))
+            return
         raise Unsupported(f"attribute store on {obj!r}")
+
+    # component heap for opaque objects: one array per declared field (DESIGN 2.2)
+    def heap_field_array(self, attr):
+        if attr not in self.heap_fields:
+            kind = self.contract.obj_fields[attr]
+            self.heap_fields[attr] = z3.Const(f"heap.{attr}", z3.ArraySort(ObjSort, ELEM_SORT[kind]))
+        return self.heap_fields[attr]
+
+    def to_field_term(self, val, kind):
+        if kind == "any":
+            return self.box(val)
+        t, k = self.lift(val)
+        if k != kind:
+            raise Unsupported(f"field of kind {kind} assigned a {k}")
+        return t
+
+    def box(self, val):
+        """Obj-sorted denotation of a value stored where only opaque values fit."""
+        if isinstance(val, SAny):
+            return val.t
+        if val is None:
+            return z3.Const("box.None", ObjSort)
+        if isinstance(val, (HObj, HDict, HList)):
+            key = id(getattr(val, "orig", val))
+            if key not in self.boxes:
+                c = z3.Const(f"box.{len(self.boxes)}", ObjSort)
+                self.boxes[key] = (c, val)
+            return self.boxes[key][0]
+        raise Unsupported(f"boxing of {val!r}")
+
+    def unbox(self, t):
+        t = z3.simplify(t)
+        for c, v in self.boxes.values():
+            if c.eq(t):
+                return v
+        for c, v in self.boxes.values():
+            if self.prove_now(t == c):
+                return v
+        return SAny(t)
 
     def ex_Await(self, node, frame):
         return self.eval(node.value, frame)  # await-erasure (C03 proves the twins equal)
@@ -1273,7 +1309,7 @@ class Exec:
                 terms.append(c)
             if not terms:
                 return is_and
-            return SBool(z3.And(*terms) if is_and else z3.Or(*terms))
+            return self.to_bool_value(z3.And(*terms) if is_and else z3.Or(*terms))
         v = None
         for i, e in enumerate(node.values):
             v = self.eval(e, frame)
@@ -1372,6 +1408,9 @@ class Exec:
             return self.eval_old(node.args[0], frame)
         if self.pure and isinstance(node.func, ast.Name) and node.func.id == "implies" and len(node.args) == 2:
             a = self.truth(self.eval(node.args[0], frame))
+            if not isinstance(a, bool):
+                a = z3.simplify(a)
+                a = True if z3.is_true(a) else (False if z3.is_false(a) else a)
             if a is False:
                 return True
             b = self.truth(self.eval(node.args[1], frame))
@@ -1546,6 +1585,8 @@ class Exec:
     def call(self, fv, args, kwargs, frame, node=None):
         if isinstance(fv, SpecRef):
             return fv.fn.sym(self, *args, **kwargs)
+        if isinstance(fv, PyCallable):
+            return fv.fn(self, args, kwargs)
         if isinstance(fv, FuncRef):
             return self.call_repo_function(fv, args, kwargs, None, frame)
         if isinstance(fv, BoundMethod):
@@ -1614,6 +1655,9 @@ class Exec:
         self.used_contracts.add(c.target)
         fr = Frame(fref.mod, fname=f"<contract {c.target}>")
         self.bind_params(fr, fref.node.args, args, kwargs, fref)
+        for gname, gty in c.ghost.items():
+            # ghost (universally quantified) variables of the callee: any fresh instance may be assumed
+            fr.locals[gname] = gty.fresh(self, f"{gname}@{c.qual}")
         tag = c.target.split(":")[1]
         saved_pure = self.pure
         old_snap = self.snapshot(fr.locals)
@@ -1704,7 +1748,9 @@ class Exec:
                 return tuple(cp(x) for x in v)
             return v
 
-        return {k: cp(v) for k, v in env.items()}
+        out = {k: cp(v) for k, v in env.items()}
+        out["__heap_fields__"] = dict(self.heap_fields)
+        return out
 
     def eval_old(self, node, frame):
         f = frame
@@ -1718,7 +1764,15 @@ class Exec:
             raise Unsupported("old() outside a contract")
         fr = Frame(frame.mod, locals_=dict(old), fname=frame.fname)
         fr.old = old
-        return self.eval(node, fr)
+        saved = self.heap_fields
+        self.heap_fields = dict(old.get("__heap_fields__", saved))
+        # arrays first touched inside old() denote the entry heap too
+        try:
+            return self.eval(node, fr)
+        finally:
+            for k, v in self.heap_fields.items():
+                saved.setdefault(k, v)
+            self.heap_fields = saved
 
     def spec_eval(self, clause, frame, extra=None):
         node = clause if isinstance(clause, ast.AST) else ast.parse(clause, mode="eval").body
